@@ -216,6 +216,7 @@ impl TraitHandlerMultiple for IntoEnumHandler {
                 token_stream.extend(quote! {
                     impl #impl_generics ::core::convert::Into<#target_ty> for #ident #ty_generics #where_clause {
                         #[inline]
+                        #[allow(non_snake_case)]
                         fn into(self) -> #target_ty {
                             match self {
                                 #arms_token_stream
